@@ -615,4 +615,317 @@ theorem run_iteration {V : Int → Prop} {lb ub : Int} (hmono : LowerMono V lb)
   · rw [anyPanic_append, i3]
     simp [anyPanic, panics]
 
+/-! ### The specification in plain integer arithmetic (no saturation) -/
+
+/-- same-key pairs with `l.ts - lb ≤ r.ts ≤ l.ts + ub` over ℤ, stamped `max l.ts r.ts` -/
+def specZ (lb ub : Int) (L : List (Int × κ × α)) (R : List (κ × Int × β)) : List (Int × κ × α × β) :=
+  L.flatMap fun l =>
+    (R.filter fun r => decide (r.1 = l.2.1) && decide (l.1 - lb ≤ r.2.1) && decide (r.2.1 ≤ l.1 + ub)).map
+      fun r => (max r.2.1 l.1, l.2.1, l.2.2, r.2.2)
+
+/-- `checked_sub` does not fail: `0 ≤ ts`, `lb ≤ i64::MAX`, `ts - lb ≤ i64::MAX` (automatic for `0 ≤ lb`) -/
+theorem lowerOf_eq (t lb : Int) (h1 : 0 ≤ t) (h2 : lb ≤ TS_MAX) (h3 : t - lb ≤ TS_MAX) :
+    lowerOf t lb = t - lb := by
+  have : TS_MIN ≤ t - lb ∧ t - lb ≤ TS_MAX := by simp only [TS_MIN, TS_MAX] at *; omega
+  simp [lowerOf, this]
+
+/-- a saturated `checked_add` is harmless: every timestamp is `≤ i64::MAX` anyway -/
+theorem le_upperOf_iff (t ub r : Int) (h1 : 0 ≤ t) (h2 : TS_MIN ≤ ub) (h3 : r ≤ TS_MAX) :
+    r ≤ upperOf t ub ↔ r ≤ t + ub := by
+  unfold upperOf
+  simp only
+  split
+  · exact Iff.rfl
+  · simp only [TS_MIN, TS_MAX] at *; omega
+
+theorem spec_eq_specZ (lb ub : Int) (hlb : lb ≤ TS_MAX) (hub : TS_MIN ≤ ub) (L : List (Int × κ × α))
+    (R : List (κ × Int × β)) (hL : ∀ l ∈ L, 0 ≤ l.1 ∧ l.1 - lb ≤ TS_MAX) (hR : ∀ r ∈ R, r.2.1 ≤ TS_MAX) :
+    spec lb ub L R = specZ lb ub L R := by
+  induction L with
+  | nil => rfl
+  | cons l L ih =>
+    have hl := hL l (by simp)
+    simp only [spec, specZ, List.flatMap_cons] at ih ⊢
+    rw [ih (fun l' hl' => hL l' (by simp [hl']))]
+    congr 2
+    apply List.filter_congr
+    intro r hr
+    rw [lowerOf_eq l.1 lb hl.1 hlb hl.2]
+    have := le_upperOf_iff l.1 ub r.2.1 hl.1 hub (hR r hr)
+    by_cases h : r.2.1 ≤ l.1 + ub
+    · simp [h, this.mpr h]
+    · have h' : ¬ r.2.1 ≤ upperOf l.1 ub := fun h' => h (this.mp h')
+      simp [h, h']
+
+theorem lowerMono_of_nosat (lb : Int) (hlb : lb ≤ TS_MAX) :
+    LowerMono (fun t => 0 ≤ t ∧ t - lb ≤ TS_MAX) lb := by
+  intro t t' ht ht' hle
+  rw [lowerOf_eq t lb ht.1 hlb ht.2, lowerOf_eq t' lb ht'.1 hlb ht'.2]
+  omega
+
+omit [DecidableEq κ] in
+theorem mem_lefts_stamps (es : List (Elem (κ × (α ⊕ β)))) (l : Int × κ × α) (h : l ∈ lefts es) :
+    l.1 ∈ stamps es := by
+  induction es with
+  | nil => simp [lefts] at h
+  | cons e es ih =>
+    cases e with
+    | ts a t =>
+      obtain ⟨k, lr⟩ := a
+      cases lr with
+      | inl v =>
+        simp only [lefts, List.mem_cons] at h
+        rcases h with rfl | h
+        · simp
+        · simp [ih h]
+      | inr v => simp only [lefts] at h; simp [ih h]
+    | wm t => simp only [lefts] at h; simp [ih h]
+    | flushBatch => simp only [lefts] at h; simp [ih h]
+    | item a => simp only [lefts] at h; simpa [stamps, Elem.timestamp] using ih h
+    | far => simp only [lefts] at h; simpa [stamps, Elem.timestamp] using ih h
+    | term => simp only [lefts] at h; simpa [stamps, Elem.timestamp] using ih h
+
+omit [DecidableEq κ] in
+theorem mem_rights_stamps (es : List (Elem (κ × (α ⊕ β)))) (r : κ × Int × β) (h : r ∈ rights es) :
+    r.2.1 ∈ stamps es := by
+  induction es with
+  | nil => simp [rights] at h
+  | cons e es ih =>
+    cases e with
+    | ts a t =>
+      obtain ⟨k, lr⟩ := a
+      cases lr with
+      | inr v =>
+        simp only [rights, List.mem_cons] at h
+        rcases h with rfl | h
+        · simp
+        · simp [ih h]
+      | inl v => simp only [rights] at h; simp [ih h]
+    | wm t => simp only [rights] at h; simp [ih h]
+    | flushBatch => simp only [rights] at h; simp [ih h]
+    | item a => simp only [rights] at h; simpa [stamps, Elem.timestamp] using ih h
+    | far => simp only [rights] at h; simpa [stamps, Elem.timestamp] using ih h
+    | term => simp only [rights] at h; simpa [stamps, Elem.timestamp] using ih h
+
+/-! ### The specification does not depend on the arrival order -/
+
+theorem flatMap_perm_congr {γ δ : Type} (l : List γ) (f g : γ → List δ) (h : ∀ a ∈ l, (f a).Perm (g a)) :
+    (l.flatMap f).Perm (l.flatMap g) := by
+  induction l with
+  | nil => exact List.Perm.refl _
+  | cons a l ih =>
+    simp only [List.flatMap_cons]
+    exact (h a (by simp)).append (ih fun a' ha' => h a' (by simp [ha']))
+
+theorem spec_perm (lb ub : Int) {L L' : List (Int × κ × α)} {R R' : List (κ × Int × β)}
+    (hL : L.Perm L') (hR : R.Perm R') : (spec lb ub L R).Perm (spec lb ub L' R') := by
+  simp only [spec_eq]
+  refine (List.Perm.flatMap_right _ hL).trans (flatMap_perm_congr _ _ _ ?_)
+  intro l _
+  exact (hR.filter _).map _
+
+/-- `lefts` / `rights` as `filterMap`s -/
+def leftOf : Elem (κ × (α ⊕ β)) → Option (Int × κ × α)
+  | .ts (k, .inl v) t => some (t, k, v)
+  | _ => none
+def rightOf : Elem (κ × (α ⊕ β)) → Option (κ × Int × β)
+  | .ts (k, .inr v) t => some (k, t, v)
+  | _ => none
+
+omit [DecidableEq κ] in
+theorem lefts_eq_filterMap (es : List (Elem (κ × (α ⊕ β)))) : lefts es = es.filterMap leftOf := by
+  induction es with
+  | nil => rfl
+  | cons e es ih =>
+    cases e with
+    | ts a t =>
+      obtain ⟨k, lr⟩ := a
+      cases lr with
+      | inl v => exact congrArg ((t, k, v) :: ·) ih
+      | inr v => exact ih
+    | _ => exact ih
+
+omit [DecidableEq κ] in
+theorem rights_eq_filterMap (es : List (Elem (κ × (α ⊕ β)))) : rights es = es.filterMap rightOf := by
+  induction es with
+  | nil => rfl
+  | cons e es ih =>
+    cases e with
+    | ts a t =>
+      obtain ⟨k, lr⟩ := a
+      cases lr with
+      | inr v => exact congrArg ((k, t, v) :: ·) ih
+      | inl v => exact ih
+    | _ => exact ih
+
+omit [DecidableEq κ] in
+theorem lefts_perm {es es' : List (Elem (κ × (α ⊕ β)))} (h : es.Perm es') : (lefts es).Perm (lefts es') := by
+  rw [lefts_eq_filterMap, lefts_eq_filterMap]; exact h.filterMap _
+
+omit [DecidableEq κ] in
+theorem rights_perm {es es' : List (Elem (κ × (α ⊕ β)))} (h : es.Perm es') : (rights es).Perm (rights es') := by
+  rw [rights_eq_filterMap, rights_eq_filterMap]; exact h.filterMap _
+
+/-! ### Stream shape: grammar, watermarks (no sortedness needed) -/
+
+theorem fin_out (lb ub : Int) (s : State κ α β) :
+    (fin lb ub s).1.receivedRestart = false ∧
+    ∃ ps : List (Int × κ × α × β), (fin lb ub s).2 =
+      ps.map (fun o => Elem.ts o.2 o.1) ++ (if s.receivedRestart then [Elem.far] else []) := by
+  refine ⟨?_, (advance lb ub s.lastSeen s.receivedRestart s.left s.right).2.2, ?_⟩ <;>
+    cases h : s.receivedRestart <;> simp [fin, h]
+
+/-- what one pull produces, by kind of the consumed element -/
+theorem step_shape (lb ub : Int) (s : State κ α β) (hr : s.receivedRestart = false) (e : Elem (κ × (α ⊕ β))) :
+    (step lb ub s e).1.receivedRestart = false ∧
+    ∃ ps : List (Int × κ × α × β), (step lb ub s e).2 = ps.map (fun o => Elem.ts o.2 o.1) ++
+      (match e with | .far => [Elem.far] | .term => [Elem.term] | .flushBatch => [Elem.flushBatch] | _ => []) := by
+  cases e with
+  | item a => exact ⟨hr, [], rfl⟩
+  | flushBatch => exact ⟨hr, [], rfl⟩
+  | term => exact ⟨hr, [], rfl⟩
+  | far =>
+    rw [step_far]
+    obtain ⟨h1, ps, h2⟩ := fin_out lb ub { s with receivedRestart := true }
+    exact ⟨h1, ps, by simpa using h2⟩
+  | wm t =>
+    rw [step_wm]
+    obtain ⟨h1, ps, h2⟩ := fin_out lb ub { s with lastSeen := t }
+    exact ⟨h1, ps, by simpa [hr] using h2⟩
+  | ts a t =>
+    obtain ⟨k, lr⟩ := a
+    cases lr with
+    | inl v =>
+      rw [step_left]
+      obtain ⟨h1, ps, h2⟩ := fin_out lb ub { s with lastSeen := t, left := s.left ++ [(t, k, v)] }
+      exact ⟨h1, ps, by simpa [hr] using h2⟩
+    | inr v =>
+      rw [step_right]
+      obtain ⟨h1, ps, h2⟩ := fin_out lb ub { s with lastSeen := t, right := s.right ++ [(k, t, v)] }
+      exact ⟨h1, ps, by simpa [hr] using h2⟩
+
+omit [DecidableEq κ] in
+theorem grammarGo_ts_append (b : Bool) (ps : List (Int × κ × α × β)) (rest : List (Elem (κ × α × β))) :
+    grammarGo b (ps.map (fun o => Elem.ts o.2 o.1) ++ rest)
+      = if ps = [] then grammarGo b rest else grammarGo false rest := by
+  induction ps generalizing b with
+  | nil => simp
+  | cons p ps ih =>
+    simp only [List.map_cons, List.cons_append, grammarGo, ih false]
+    simp
+
+theorem grammarGo_weaken {γ : Type} (b : Bool) (es : List (Elem γ)) (h : grammarGo false es = true) :
+    grammarGo b es = true := by
+  cases b with
+  | false => exact h
+  | true =>
+    cases es with
+    | nil => simp [grammarGo] at h
+    | cons e es => cases e <;> cases es <;> simp_all [grammarGo]
+
+theorem run_grammar (lb ub : Int) (es : List (Elem (κ × (α ⊕ β)))) :
+    ∀ (s : State κ α β) (b : Bool), s.receivedRestart = false → grammarGo b es = true →
+      grammarGo b (run lb ub s es).2 = true := by
+  induction es with
+  | nil => intro s b _ h; simp [grammarGo] at h
+  | cons e es ih =>
+    intro s b hr h
+    obtain ⟨h1, ps, h2⟩ := step_shape lb ub s hr e
+    simp only [run, h2, List.append_assoc]
+    rw [grammarGo_ts_append]
+    cases e with
+    | far =>
+      have := ih (step lb ub s .far).1 true h1 (by simpa [grammarGo] using h)
+      simp only [List.cons_append, List.nil_append, grammarGo]
+      split <;> exact this
+    | term =>
+      cases es with
+      | nil =>
+        have hb : b = true := by simpa [grammarGo] using h
+        subst hb
+        simp only [List.cons_append, List.nil_append, run, grammarGo]
+        split
+        · rfl
+        · rename_i hne
+          exfalso
+          -- `term` never emits tuples: `ps.map … ++ [term] = [term]`
+          have : (step lb ub s (.term : Elem (κ × (α ⊕ β)))).2 = [Elem.term] := rfl
+          rw [this] at h2
+          cases ps with
+          | nil => exact hne rfl
+          | cons p ps => simp at h2
+      | cons e' es' => simp [grammarGo] at h
+    | flushBatch =>
+      have := ih (step lb ub s .flushBatch).1 false h1 (by simpa [grammarGo] using h)
+      simp only [List.cons_append, List.nil_append, grammarGo]
+      split <;> exact this
+    | item a =>
+      have := ih (step lb ub s (.item a)).1 false h1 (by simpa [grammarGo] using h)
+      simp only [List.nil_append]
+      split
+      · exact grammarGo_weaken b _ this
+      · exact this
+    | ts a t =>
+      have := ih (step lb ub s (.ts a t)).1 false h1 (by simpa [grammarGo] using h)
+      simp only [List.nil_append]
+      split
+      · exact grammarGo_weaken b _ this
+      · exact this
+    | wm t =>
+      have := ih (step lb ub s (.wm t)).1 false h1 (by simpa [grammarGo] using h)
+      simp only [List.nil_append]
+      split
+      · exact grammarGo_weaken b _ this
+      · exact this
+
+def isWm {γ : Type} : Elem γ → Bool
+  | .wm _ => true
+  | _ => false
+
+/-- the operator never emits a `Watermark` (it consumes them, interval_join.rs:174-177) -/
+theorem run_no_wm (lb ub : Int) (es : List (Elem (κ × (α ⊕ β)))) :
+    ∀ (s : State κ α β), s.receivedRestart = false → ∀ o ∈ (run lb ub s es).2, isWm o = false := by
+  induction es with
+  | nil => intro s _ o ho; simp [run] at ho
+  | cons e es ih =>
+    intro s hr o ho
+    obtain ⟨h1, ps, h2⟩ := step_shape lb ub s hr e
+    simp only [run, List.mem_append] at ho
+    rcases ho with ho | ho
+    · rw [h2] at ho
+      rcases List.mem_append.mp ho with ho | ho
+      · obtain ⟨x, _, rfl⟩ := List.mem_map.mp ho; rfl
+      · cases e <;> simp at ho <;> subst ho <;> rfl
+    · exact ih _ h1 o ho
+
+theorem wmSafeGo_no_wm {γ : Type} (l : List (Elem γ)) (h : ∀ o ∈ l, isWm o = false) :
+    wmSafeGo none l = true := by
+  induction l with
+  | nil => rfl
+  | cons o l ih =>
+    have := ih (fun o' ho' => h o' (by simp [ho']))
+    cases o with
+    | wm t => have := h (.wm t) (by simp); simp [isWm] at this
+    | _ => simp [wmSafeGo, this]
+
+/-! ### `FlushAndRestart` resets the operator, whatever happened before -/
+
+theorem advance_restart_left (lb ub M : Int) (ls : List (Int × κ × α)) :
+    ∀ rs : List (κ × Int × β), (advance lb ub M true ls rs).1 = [] := by
+  induction ls with
+  | nil => intro rs; simp [advance_nil]
+  | cons l ls ih =>
+    intro rs
+    rw [advance_cons_go lb ub M true l ls rs (by simp)]
+    exact ih _
+
+theorem step_far_resets (lb ub : Int) (s : State κ α β) : (step lb ub s .far).1 = State.init := by
+  rw [step_far]
+  simp [fin, advance_restart_left, State.init]
+
+theorem run_far_resets (lb ub : Int) (s : State κ α β) (es : List (Elem (κ × (α ⊕ β)))) :
+    (run lb ub s (es ++ [.far])).1 = State.init := by
+  rw [run_append]
+  simp [run, step_far_resets]
+
 end Noir.IntervalJoin
